@@ -7,6 +7,7 @@ TR_VALUES = {          # abstract id -> (twp, ns, rge, ew)
     2: (155, "N", 98, "W"),
     3: (7, "S", 12, "E"),
     4: (23, "N", 101, "W"),
+    5: (54, "N", 97, "W"),     # its bare spelling '54N-97W' is part of the spelling of value 1
 }
 NS_WORD = {"N": ["N", "North", "N."], "S": ["S", "South", "S."]}
 EW_WORD = {"E": ["E", "East", "E."], "W": ["W", "West", "W."]}
@@ -33,9 +34,13 @@ def tr_short(v):
     return "%d%s%d%s" % (t, ns.lower(), r, ew.lower())
 
 
-def render_tr(v, rng, plain=False):
+# the spellings whose matched text can begin, or be part of, another occurrence's matched text
+TR_TEMPLATES_OVERLAP = ["T{t}{NS}-R{r}{EW}", "T. {t} {NS}., R. {r} {EW}.", "{t}{NS}-{r}{EW}", "T{t}{NS} R{r}{EW}"]
+
+
+def render_tr(v, rng, plain=False, templates=None):
     t, ns, r, ew = TR_VALUES[v]
-    tpl = TR_TEMPLATES[0] if plain else rng.choice(TR_TEMPLATES)
+    tpl = TR_TEMPLATES[0] if plain else rng.choice(templates or TR_TEMPLATES)
     return tpl.format(t=t, r=r, NS=ns, EW=ew, ns=ns.lower(), ew=ew.lower(),
                       NSw={"N": "North", "S": "South"}[ns], EWw={"E": "East", "W": "West"}[ew])
 
